@@ -359,9 +359,12 @@ def check(cx):
                 t = b["term"]
                 if t["t"] == "switch" and gi != bi and f.dominates(gi, bi):
                     l = op_local(t["o"])
-                    cl = f.dep_closure(l) if l is not None else set()
-                    tests = {x.callee.rsplit("::", 1)[-1] for x in f.calls() if op_local({"c": x.dst}) in cl}
-                    guards.append((tests, 2 in cl))
+                    # what the tested value is (provenance), and whether the id of the caller's transaction feeds it
+                    prov = f.nearest_calls(l) if l is not None else set()
+                    tests = {x.rsplit("::", 1)[-1] for k_, x in prov if k_ == "call"}
+                    producers = [x for x in f.calls() if op_local({"c": x.dst}) in ((f.provenance_locals(l) | {l}) if l is not None else set())]
+                    dep = ("param", 2) in prov or any(("param", 2) in f.nearest_calls(op_local(a)) for x in producers for a in x.args if op_local(a) is not None)
+                    guards.append((tests, dep))
             ok1 = any(("is_deleted" in t or "is_some" in t or "is_none" in t) and not dep for t, dep in guards)
             good = good and ok1
             why = "guards: %s" % [(sorted(t), "depends on xid" if d else "independent of xid") for t, d in guards]
